@@ -31,7 +31,7 @@ ASSUMPTIONS = [
 ]
 TECHNIQUE = "reference-model runtime monitor (respondent-level scale statistics)"
 DESIGN_REF = "DESIGN.md 4 C14"
-WEIGHTS = ["none", "ints", "frac", "none", "float"]
+WEIGHTS = ["none", "ints", "frac", "none", "float", "scales", "tiny"]
 REQUIRED_REACH = ["scale_mean", "scale_stddev", "scale_stderr", "scale_median", "margins",
                   "strand_scale", "none_when_no_values", "class:median_exact_half",
                   "class:subtotal_vector", "class:vector_without_valued_respondents"]
